@@ -292,9 +292,16 @@ func (m *Manager) retryMonitor(ctx context.Context, ta *target) {
 	defer func() {
 		timer.Stop()
 		log.Infof("Finished monitoring %q", ta.name)
+		// Ensure the cancelFunc for the subcontext is called: that of this
+		// target, not of a target added again under the same name once Remove
+		// has returned.
+		ta.mu.Lock()
+		if ta.reconnect != nil {
+			ta.reconnect()
+			ta.reconnect = nil
+		}
+		ta.mu.Unlock()
 		close(ta.finished)
-		// Ensure the cancelFunc for the subcontext is called.
-		m.Reconnect(ta.name)
 	}()
 
 	e := backoff.NewExponentialBackOff()
